@@ -33,6 +33,8 @@ class Facts:
         self.pos_terms = set()   # Poly keys known positive
         self.lower = {}          # app name -> fn(*index terms) -> Poly lower bound (e.g. variances >= floors)
         self.int_apps = {}
+        self.samplers = {}       # numeric refutation only: app name -> fn(args, env) giving structured sample values
+        self.dim_values = {}     # numeric refutation only: dimension symbol -> list of values to sample from
 
     def extend(self, conds=()):
         f = Facts(self.pos_apps, self.nonneg_apps, self.pos_syms - self.dims, self.nonneg_syms,
@@ -42,6 +44,8 @@ class Facts:
         f.pos_preds = list(getattr(self, "pos_preds", ()))
         f.upper = dict(getattr(self, "upper", {}))
         f.int_apps = dict(self.int_apps)
+        f.samplers = dict(self.samplers)
+        f.dim_values = dict(self.dim_values)
         return f
 
 
@@ -271,7 +275,10 @@ class Tr:
         if key in self.cache:
             return self.cache[key]
         r = self.fresh("real", ("inv", a))
-        self.axioms.append(z3.ToReal(v) * r == 1 if z3.is_int(v) else v * r == 1)
+        # 1/x as a TOTAL function, unspecified at 0: asserting x * r == 1 outright would assert x != 0 globally and make
+        # every case guarded by x == 0 (np.where / if branches) vacuous; definedness is a separate obligation
+        vr = z3.ToReal(v) if z3.is_int(v) else v
+        self.axioms.append(z3.Implies(vr != 0, vr * r == 1))
         s = sign_atom(a, self.F)
         if s == "+":
             self.axioms.append(r > 0)
@@ -323,10 +330,10 @@ class Tr:
             self.axioms.append(v == z3.If(c, z3.RealVal(1), z3.RealVal(0)))
         elif k == "rcp":
             x = self.poly(a.args[0])
-            self.axioms.append(x * v == 1)
+            self.axioms.append(z3.Implies(x != 0, x * v == 1))
         elif k == "sqrt":
             x = self.poly(a.args[0])
-            self.axioms += [v >= 0, v * v == x]
+            self.axioms += [v >= 0, z3.Implies(x >= 0, v * v == x)]     # total, unspecified on negatives
         elif k == "exp":
             self.axioms.append(v > 0)
         return v
